@@ -21,7 +21,7 @@ from . import common
 
 ID = 'C13'
 LEVEL = 'fault_enumeration'
-RUNS = {'quick': 64, 'thorough': 384}
+RUNS = {'quick': 96, 'thorough': 384}
 ENV_OPT_OUT = ('failed_eval',)      # the statement does not say whether a second evaluate() restarts or continues the count
 SIM_TIME_UNIT = 'time-stamps'
 SELFTEST_RUNS = 2      # one run enumerates ~900 fault sequences (about 2 s)
@@ -77,7 +77,7 @@ def gen(rng, tier):
             'maxlen': maxlen, 'classes': classes, 'longs': longs, 't0': t0,
             'online_cls': 'dt_on' if rng.random() < 0.6 else 'dt', 'offline_cls': 'dt_off' if rng.random() < 0.5 else 'dt',
             'set_sampling': True if (P, pu, tol) != (1, 's', 0.1) else rng.random() < 0.5,
-            'semantics': semantics, 'reparse': rng.random() < 0.25}
+            'semantics': semantics, 'reparse': rng.random() < 0.25, 'pastify': rng.random() < 0.3}
 
 
 def period_in_stamp_unit(sc):
@@ -145,7 +145,7 @@ def ref_counts(stamps, sc):
     return out, margin_ok
 
 
-def spec_desc(sc, cls):
+def spec_desc(sc, cls, online=False):
     if sc.get('semantics'):
         cls = 'dt'         # only the combined class takes a semantics argument (the online-only / offline-only classes are STANDARD)
     nt = {'period': sc['period'], 'pu': sc['pu'], 'du': sc['du'], 'style': 'plain'}
@@ -157,6 +157,8 @@ def spec_desc(sc, cls):
         d['sampling'] = [sc['period'], sc['pu'], sc['tol']]
     if sc.get('semantics'):
         d['semantics'] = sc['semantics']      # the counter does not depend on the (interface-aware) semantics of the monitor
+    if sc.get('pastify') and online:
+        d['pastify'] = True       # pastify() of a past-time specification must change nothing, the counter included
     if sc.get('reparse'):
         d['prior'] = {'spec': 'out = (%s) >= (0.0);' % sc['vars'][0], 'unit': d.get('unit'), 'sampling': d.get('sampling')}   # parsed twice (new text)
     return d
@@ -194,7 +196,7 @@ def run(sc):
             r.faults['gap_' + c] += 1
         # ---- online
         try:
-            mon = M.build(spec_desc(sc, sc['online_cls']))
+            mon = M.build(spec_desc(sc, sc['online_cls'], online=True))
             outs = []
             for i in range(n):
                 o = M.dt_update(mon, stamps[i], [(v, data[v][i]) for v in vars_])
@@ -235,7 +237,7 @@ def run(sc):
         # outputs unaffected by jitter
         if n not in perfect_out:
             try:
-                pm = M.build(spec_desc(sc, sc['online_cls']))
+                pm = M.build(spec_desc(sc, sc['online_cls'], online=True))
                 ps = [i * float(period_in_stamp_unit(sc)) for i in range(n)]
                 perfect_out[n] = [M.dt_update(pm, ps[i], [(v, data[v][i]) for v in vars_]) for i in range(n)]
             except M.ApiCrash as e:
